@@ -215,7 +215,6 @@ func (c *Cache) Add(key, value interface{}) {
 		c.Gate("cache.add", k)
 	}
 	c.mu.Lock()
-	defer c.mu.Unlock()
 	c.Adds = append(c.Adds, CacheAdd{k, value})
 	if c.Real != nil {
 		c.Real.Add(key, value)
@@ -228,6 +227,12 @@ func (c *Cache) Add(key, value interface{}) {
 			c.Order = c.Order[1:]
 			delete(c.M, ev)
 		}
+	}
+	c.mu.Unlock()
+	// Add publishes an object to every other tree: what the caller does to that object
+	// *after* Add returns is visible to them, so the return is a scheduling point too
+	if c.Gate != nil {
+		c.Gate("cache.add.done", k)
 	}
 }
 
